@@ -456,6 +456,22 @@ const PROBES: &[(&str, &[(&str, &str)])] = &[
 		&[("a.pn", "fn main() -> u8\n{\n\tvar one: []i32 = [200];\n\tprint!(one, \"\\n\");\n\treturn: 0\n}\n")],
 	),
 	(
+		"the value of panic!() cast and compared",
+		&[("a.pn", "fn main() -> i32\n{\n\tif panic!() as u64 == 0\n\t{\n\t}\n\treturn: 0\n}\n")],
+	),
+	(
+		"the value of panic!() as an initialiser",
+		&[("a.pn", "fn f2() -> i32\n{\n\tvar r: u8 = panic!();\n\treturn: 0\n}\n")],
+	),
+	(
+		"the value of panic!() as the operand of a unary operator",
+		&[("a.pn", "fn f1() -> u16\n{\n\tvar v3: u16 = !panic!(0i8 as u16);\n\treturn: 0\n}\n")],
+	),
+	(
+		"the value of panic!() as a return value",
+		&[("a.pn", "fn m0f0(q3: i32) -> i32\n{\n\treturn: panic!(17i8 as i32)\n}\n")],
+	),
+	(
 		"rows of different lengths in a two-dimensional array literal",
 		&[("a.pn", "fn main() -> i32\n{\n\tvar grid: [2][3]i32 = [\n\t\t[1, 2, 3],\n\t\t[4, 5- 6],\n\t];\n\treturn: grid[0][0]\n}\n")],
 	),
